@@ -70,6 +70,11 @@ def configs(tier):
                 out.append(dict(kind='phase', phase=ph, cause=cause))
         else:
             out.append(dict(kind='phase', phase=ph, cause=None))
+    # an error inside the simulation task (failing output function, unstable network, failing
+    # monitored task): from the moment it happened - in every following loop iteration - the
+    # circuit is not running any more
+    for cause in ('calc-error', 'unstable', 'task-error', 'handler-error', 'abort-in-handler'):
+        out.append(dict(kind='after-failure', cause=cause))
     out += [dict(kind='names', part=p) for p in range(4)]
     out.append(dict(kind='ctor'))
     return out
@@ -351,6 +356,115 @@ async def _after_time(loop, circuit, t):
     return await stop(circuit)
 
 
+def run_after_failure(cfg, acc):
+    cause = cfg['cause']
+    viol = []
+    seen = []
+    failed = {'at': None}
+    with Sim() as sim:
+        circuit = sim.circuit
+        loop = sim.loop
+        probe = lblock_class()('probe', log=[], cfg={
+            'init_regular': ('set', 0),
+            'on_event': lambda blk, et, data: seen.append((loop.iterations, et, dict(data)))})
+        trig = edzed.Input('trig', initdef=0)
+
+        clock = [0]     # orders the failure and the send attempts within one loop iteration too
+
+        def tick():
+            clock[0] += 1
+            return clock[0]
+
+        def mark():
+            if failed['at'] is None:
+                failed['at'] = tick()
+
+        def calc(a):
+            if a == 'boom':
+                mark()
+                raise Fault('calc_output')
+            return a
+        edzed.FuncBlock('fb', func=calc).connect(trig)
+        if cause == 'unstable':
+            edzed.FuncBlock('osc', func=lambda t, o: (not o) if t == 'osc' else False).connect(trig, 'osc')
+
+        def bad_handler(blk, et, data):
+            mark()
+            if cause == 'abort-in-handler':
+                circuit.abort(Fault('abort'))
+                return 'aborted'
+            raise Fault('handler')
+        hblk = lblock_class()('hblk', log=[], cfg={'init_regular': ('set', 0), 'on_event': bad_handler})
+
+        async def boom():
+            await asyncio.sleep(3)
+            mark()
+            raise Fault('task')
+        mt = lblock_class(maintask=True)('mt', log=[], cfg={'init_regular': ('set', 0),
+                                                            'maintask': (None, None)}, stop_timeout=5)
+        if cause == 'task-error':
+            mt._maintask = boom
+        sender = edzed.ExtEvent(probe, 'ping')
+        results = []
+
+        async def driver():
+            task = asyncio.create_task(circuit.run_forever())
+            await circuit.wait_init()
+            if cause == 'calc-error':
+                edzed.ExtEvent(trig).send('boom')
+            elif cause == 'unstable':
+                edzed.ExtEvent(trig).send('osc')
+            elif cause in ('handler-error', 'abort-in-handler'):
+                try:
+                    edzed.ExtEvent(hblk, 'x').send()
+                except Fault:
+                    pass
+            for _k in range(40 if cause != 'task-error' else 400):
+                it = tick()
+                try:
+                    sender.send(_k)
+                    results.append((it, 'delivered'))
+                except edzed.EdzedInvalidState:
+                    results.append((it, 'refused'))
+                if cause == 'task-error':
+                    await asyncio.sleep(0.01)
+                else:
+                    await asyncio.sleep(0)
+            await stop(circuit)
+            results.append((loop.iterations, 'end', task.done()))
+        sim.run(driver())
+        err = circuit.error
+    acc.execs += 1
+    acc.outcome(('after-failure', cause, tuple(r[1] for r in results)))
+    acc.state(('after-failure', cause))
+    if err is None or isinstance(err, asyncio.CancelledError):
+        if cause == 'unstable':
+            # the instability is detected inside the simulation task as well
+            viol.append(('harness-no-failure', f"{cause}: no error happened ({err!r})"))
+        elif cause != 'unstable':
+            viol.append(('harness-no-failure', f"{cause}: no error happened ({err!r})"))
+        return viol
+    if cause == 'unstable':
+        # no harness mark inside the simulator: the failure instant is the first refusal at
+        # the latest; require that refusals are never followed by a delivery
+        first_ref = next((i for i, r in enumerate(results) if r[1] == 'refused'), None)
+        if first_ref is None or any(r[1] == 'delivered' for r in results[first_ref:]):
+            viol.append(('delivered-after-failure', f"{cause}: {results[:12]}"))
+        # and the simulator must have failed within a couple of iterations of the trigger
+        if first_ref is None or first_ref > 2:
+            viol.append(('delivered-after-failure',
+                         f"{cause}: deliveries continued for {first_ref} iterations after the "
+                         f"network became unstable: {results[:8]}"))
+        return viol
+    bad = [r for r in results if r[1] == 'delivered' and failed['at'] is not None and r[0] > failed['at']]
+    if bad:
+        viol.append(('delivered-after-failure',
+                     f"{cause}: the failure happened at step {failed['at']}, but external events were "
+                     f"still delivered at the later steps {[r[0] for r in bad]} "
+                     f"(error {err!r})"))
+    return viol
+
+
 # ------------------------------------------------------------------ name space
 
 CLASS_NAMES = ['Foo', 'ext', 'ext_', 'ext_Foo', 'Ext_foo', 'EXT_', '_ext', '__ext', 'ext__', 'ext_1']
@@ -496,7 +610,8 @@ def run_ctor(cfg, acc):
 
 def run_config(cfg):
     acc = Acc()
-    fn = {'phase': run_phase, 'names': run_names, 'ctor': run_ctor}[cfg['kind']]
+    fn = {'phase': run_phase, 'names': run_names, 'ctor': run_ctor,
+          'after-failure': run_after_failure}[cfg['kind']]
     seen_sig = {}
     for sig, msg in fn(cfg, acc):
         seen_sig[sig] = seen_sig.get(sig, 0) + 1
